@@ -133,7 +133,7 @@ class IndicatorTardiness(Indicator):
             # tardiness in terms of time units
             weighted_tardiness_v.append(
                 z3.If(
-                    z3.And(t.due_date >= t._end, t._scheduled),
+                    z3.Or(t.due_date >= t._end, z3.Not(t._scheduled)),
                     0,
                     (t._end - t.due_date) * t.priority,
                 )
